@@ -62,6 +62,8 @@ int main(int argc, char** argv) {
         if (err_markers) { fflush(stderr); fprintf(stderr, "\nVH-BEGIN %ld\n", k); fflush(stderr); }
         Ctx c; c.seed = seed; c.tier = tier; c.driver = dname; c.k = k; c.replay = (only >= 0);
         c.rng = Rng::for_case(seed, dname, (uint64_t)k);
+        lifecycle_mode() = (k % 5 == 3) ? 1 : 0;
+        if (lifecycle_mode()) c.features.set("declare_first", true);
         try {
             drv->run(c);
         } catch (const std::exception& e) {
